@@ -85,7 +85,7 @@ def finish(prop, tier, seed, jobs, results, describe, known, wall, scratch, writ
     inconclusive = []
     if errors:
         inconclusive.append('%d job(s) failed: %s' % (len(errors), '; '.join(
-            '%s [%s]' % (e['error'], json.dumps(e['cfg'], default=str, sort_keys=True)[:160]) for e in errors[:4])))
+            '%s [%s]' % (e['error'], json.dumps(e['cfg'], default=str, sort_keys=True)[:260]) for e in errors[:4])))
     if unknown:
         inconclusive.append('%d obligation(s) with solver verdict unknown, e.g. %s' % (len(unknown), unknown[0].get('label')))
     if not exhausted:
